@@ -116,6 +116,20 @@ func (r *runner) exec(op *simrt.Op, blocked map[ident]bool) *simrt.Violation {
 		objs := r.pickObjs(op.Sub, true)
 		blk := w.addBlock(objs, mod(op.Int(0), 1200))
 		r.ctx.Logf("addblock h=%d txs=%d", blk.Height, len(blk.Txs))
+	case "reorg":
+		depth := int(1 + mod(op.Int(0), 3))
+		var objs [][]*built
+		for i := range op.Sub {
+			if op.Sub[i].K == "nb" {
+				objs = append(objs, r.pickObjs(op.Sub[i].Sub, false))
+			}
+		}
+		popped, added := w.reorg(depth, objs, mod(op.Int(1), 600))
+		if len(popped) >= 2 {
+			r.ctx.Probe("reorg_depth_2plus_before_notifications")
+		}
+		r.ctx.Fault("reorg_completed_before_notifications")
+		r.ctx.Logf("reorg: %d blocks off, %d on, tip now %d", len(popped), len(added), w.hdr.height)
 	case "delblk":
 		blk := w.delBlock()
 		if blk != nil {
